@@ -14,12 +14,18 @@ against the rebuilt binary.
 import LedgerModel.Lemmas.Value
 import LedgerModel.Gen.ValueCells
 import LedgerModel.Model.ValueCellsPinned
+import LedgerModel.Gen.AmountFns
+import LedgerModel.Model.AmountFnsPinned
 
 namespace Ledger
 open Value
 
 /-- The dispatch cells found in the working tree are the ones the model mirrors. -/
 theorem C03.cells_pinned : Gen.valueCells = Pinned.valueCells := rfl
+
+/-- The amount_t / balance_t / value_t routines found in the working tree are, token for
+    token, the ones `Model/Value.lean` mirrors. -/
+theorem C03.amount_fns_pinned : Gen.amountFns = Pinned.amountFns := rfl
 
 /-- Addition preserves denotation, for every pair of operands on which it is defined
     (integers, plain and commoditized amounts, balances, in any combination). -/
